@@ -14,11 +14,11 @@ def seeded_table():
         m = json.load(open(d))
         sid = os.path.basename(os.path.dirname(d))
         checks = ", ".join(f"{c}: {'VIOLATION' if v['exit'] == 1 else 'exit ' + str(v['exit'])}" for c, v in m["checks_quick"].items())
-        rows.append((sid, m["needs_to_manifest"], checks, "yes" if m.get("caught") else "NO", m.get("history", "caught on the first run")))
+        rows.append((sid, m["needs_to_manifest"], checks, ("yes (neutralised later)" if m.get("superseded_by") else "yes") if m.get("caught") else "NO", m.get("history", "caught on the first run")))
     out = ["| id | what it needs to manifest | quick checks run against it | caught | history |", "|---|---|---|---|---|"]
     for r in rows:
         out.append("| " + " | ".join(x.replace("|", "/").replace("\n", " ") for x in r) + " |")
-    return "\n".join(out) + f"\n\n{len(rows)} seeded changes kept, {sum(1 for r in rows if r[3] == 'yes')} caught by the registered quick checks.\n"
+    return "\n".join(out) + f"\n\n{len(rows)} seeded changes kept, {sum(1 for r in rows if r[3].startswith('yes'))} caught by the registered quick checks.\n"
 
 
 def theorem_inventory():
